@@ -9,6 +9,8 @@ import (
 	"os"
 	"runtime"
 	"strings"
+	"sync"
+	"sync/atomic"
 	"time"
 
 	restful "github.com/emicklei/go-restful/v3"
@@ -320,7 +322,7 @@ var c10Stop bool
 func c10(ctx *core.Ctx) {
 	quietLogs()
 	c10Stop = false
-	ctx.Rule("crash points enumerated completely: panic in each of 2 container / 2 service / 2 route filters before and after passing control, in the handler before / between / after its writes and inside ReadEntity (a gzip-declared request body whose Read panics), in an If-condition, and (routing-failure request) in container filters and the custom error handler; x recovery {on, off} x coding {none, gzip, deflate} (container switch or route override) x provider {sync.Pool, bounded(1), custom} x entry {Dispatch, ServeHTTP} x filters writing output or not x custom (answers 503 with a header of its own) / default recover handler x now and then (in sequences) the same panicking request first from a client whose connection fails on every body write x panic value kind {pointer, string, error, runtime error, http.ErrAbortHandler, typed-nil error, typed-nil Stringer, Stringer whose String panics, restful.ServiceError by value}; the obsolete package variable restful.DoNotRecover set in every 7th case (value kinds on the sync.Pool / no-marker slice). Monitors: recover() around the entry, recording RecoverHandler, compressor ledger, probe requests replayed after every panic, Add+Remove afterwards (needs the write lock). Then sequences of 20 mixed panicking/normal requests per container. Non-trivial = every crash case; distinct by the full cell.")
+	ctx.Rule("crash points enumerated completely: panic in each of 2 container / 2 service / 2 route filters before and after passing control, in the handler before / between / after its writes and inside ReadEntity (a gzip-declared request body whose Read panics), in an If-condition, and (routing-failure request) in container filters and the custom error handler; x recovery {on, off} x coding {none, gzip, deflate} (container switch or route override) x provider {sync.Pool, bounded(1), custom} x entry {Dispatch, ServeHTTP} x filters writing output or not x custom (answers 503 with a header of its own) / default recover handler x now and then (in sequences) the same panicking request first from a client whose connection fails on every body write x panic value kind {pointer, string, error, runtime error, http.ErrAbortHandler, typed-nil error, typed-nil Stringer, Stringer whose String panics, restful.ServiceError by value}; the obsolete package variable restful.DoNotRecover set in every 7th case (value kinds on the sync.Pool / no-marker slice). Monitors: recover() around the entry, recording RecoverHandler, compressor ledger, probe requests replayed after every panic, Add+Remove afterwards (needs the write lock). 300 containers whose recovery switch and recover handler are set from two goroutines at once (then a panicking request). Then sequences of 20 mixed panicking/normal requests per container. Non-trivial = every crash case; distinct by the full cell.")
 	ctx.Assume("HandleWithFilter is excluded: the property speaks of routed dispatch",
 		"panic values are pointers so that 'the same value' is decided by identity")
 	defer func() {
@@ -382,6 +384,9 @@ func c10(ctx *core.Ctx) {
 			return
 		}
 	}
+	if !ctx.Skip(len(cases)) {
+		c10ConcurrentConfig(ctx, len(cases))
+	}
 	// sequences of mixed panicking and normal requests on one container
 	seqs := ctx.N(150, 60000)
 	for si := 0; si < seqs; si++ {
@@ -406,6 +411,50 @@ func c10(ctx *core.Ctx) {
 			return
 		}
 	}
+}
+
+// c10ConcurrentConfig: start-up code that configures one container from two goroutines (one switches recovery on, the other
+// installs the recover handler; the calls touch different settings). Once both have returned, a panic is recovered by that handler.
+func c10ConcurrentConfig(ctx *core.Ctx, ci int) {
+	for rep := 0; rep < 300; rep++ {
+		c := restful.NewContainer()
+		var called int32
+		ws := new(restful.WebService).Path("/cc")
+		ws.Route(ws.GET("/x").To(func(req *restful.Request, resp *restful.Response) { panic("configured concurrently") }))
+		c.Add(ws)
+		var wg sync.WaitGroup
+		var gate int32
+		wg.Add(2)
+		go func() {
+			defer wg.Done()
+			for atomic.LoadInt32(&gate) == 0 {
+				runtime.Gosched()
+			}
+			c.DoNotRecover(false)
+		}()
+		go func() {
+			defer wg.Done()
+			for atomic.LoadInt32(&gate) == 0 {
+				runtime.Gosched()
+			}
+			c.RecoverHandler(func(v interface{}, w http.ResponseWriter) {
+				atomic.AddInt32(&called, 1)
+				w.WriteHeader(503)
+			})
+		}()
+		atomic.StoreInt32(&gate, 1)
+		wg.Wait()
+		req := rt.Req{Method: "GET", Path: "/cc/x"}
+		out := rt.Run(c, rt.Dispatch, &req)
+		ctx.Eval(1)
+		ctx.Count("containers_configured_from_two_goroutines", 1)
+		if out.Panicked || atomic.LoadInt32(&called) != 1 || out.Status != 503 {
+			ctx.Violation(ci, "c10:settings-lost:concurrent-configuration", fmt.Sprintf("DoNotRecover(false) and RecoverHandler(h) both returned before the request: panic escaped=%v (%s), h was called %d time(s), status %d", out.Panicked, out.Panic, called, out.Status),
+				map[string]interface{}{"repetition": rep})
+			return
+		}
+	}
+	ctx.Sig("concurrent-configuration")
 }
 
 // c10One runs a sequence of (possibly panicking) requests on one fresh container and judges each.
